@@ -1,0 +1,46 @@
+//go:build verif
+
+package main
+
+import (
+	"encoding/json"
+	"fmt"
+	"os"
+
+	"github.com/atlassian/gostatsd/pkg/statsd"
+)
+
+// verifDumpServer lets the verification harness observe how flags, environment and configuration file
+// were mapped onto the server: with GOSTATSD_VERIF_DUMP_SERVER set it prints the relevant fields of the
+// constructed server as one JSON line and exits instead of starting the server.
+func verifDumpServer(s *statsd.Server) {
+	if os.Getenv("GOSTATSD_VERIF_DUMP_SERVER") == "" {
+		return
+	}
+	backends := make([]string, 0, len(s.Backends))
+	for _, b := range s.Backends {
+		backends = append(backends, b.Name())
+	}
+	_ = json.NewEncoder(os.Stdout).Encode(map[string]interface{}{
+		"expiry_interval_counter_ns": int64(s.ExpiryIntervalCounter),
+		"expiry_interval_gauge_ns":   int64(s.ExpiryIntervalGauge),
+		"expiry_interval_set_ns":     int64(s.ExpiryIntervalSet),
+		"expiry_interval_timer_ns":   int64(s.ExpiryIntervalTimer),
+		"flush_interval_ns":          int64(s.FlushInterval),
+		"flush_offset_ns":            int64(s.FlushOffset),
+		"flush_aligned":              s.FlushAligned,
+		"percent_threshold":          s.PercentThreshold,
+		"histogram_limit":            s.HistogramLimit,
+		"disabled_sub_types":         fmt.Sprintf("%+v", s.DisabledSubTypes),
+		"max_workers":                s.MaxWorkers,
+		"max_parsers":                s.MaxParsers,
+		"max_queue_size":             s.MaxQueueSize,
+		"max_concurrent_events":      s.MaxConcurrentEvents,
+		"ignore_host":                s.IgnoreHost,
+		"namespace":                  s.Namespace,
+		"server_mode":                s.ServerMode,
+		"default_tags":               s.DefaultTags,
+		"backends":                   backends,
+	})
+	os.Exit(0)
+}
